@@ -195,6 +195,7 @@ func checkC35(c *Ctx, r *Report) {
 	const pkg = "origin/blobclient"
 	r.Explain = "A closure that is retried across origins by blobclient.Poll must not write into a caller-supplied io.Writer on an attempt that can be followed by another attempt: the writer handed to the per-origin download must be a local counting wrapper of the destination, and the closure must return (without downloading) once that counter is non-zero; Poll itself must call the closure at most once per origin per poll round and stop at the first success."
 	r.NotDecided = "That a successful attempt delivered all bytes (io.Copy and Content-Length semantics of net/http, decided inside HTTPClient.DownloadBlob by the written==ContentLength test)."
+	defer rulesSingleSink(c, r)
 	r1 := r.Rule("R1", "E-ORDER/guard", "in every makeRequest closure passed to Poll, an io.Writer that comes from the enclosing function's parameters reaches a client call only through a local wrapper whose byte counter is tested (non-zero ⇒ return) before the call", 1)
 	n := 0
 	for _, cs := range c.CallsTo(pkg + ".Poll") {
